@@ -230,8 +230,9 @@ theorem C02_heap_limit (cfg : Searcher.Config) (m : MatcherI) (σ : Script) (inp
 
 /-- **C02 on the FAST path of `Core`, under the matcher contract** (`LineSafe`, searcher-core's
 `Lemmas/SearcherFind.lean` / `Spec/LineSafe.lean`: the answers of `find_candidate_line` are sound
-for the lines of the buffer -- what C01/C11 establish for the regex matcher, with findings F1/F2/F24
-as its stated exceptions): if the matcher is line safe on every window of the input (the input
+for the lines of the buffer -- what C01/C11 establish for the regex matcher; its former exceptions
+F1/F2/F24 are repaired, /repo 4165f41, and the harness asks the certificate of the real matcher
+wherever the fast path is taken): if the matcher is line safe on every window of the input (the input
 itself included), then for every configuration with detection off -- contexts, inversion,
 `stop_on_nonmatch`, line numbers -- every read script and capacity, and every sink script that never
 answers "stop", `ReadByLine::run` makes exactly the callbacks of `SliceByLine::run` and returns the
